@@ -140,11 +140,12 @@ def loop_counter(loop: ast.For, before: tp.Sequence[ast.stmt]) -> tp.List[str]:
             zeros += [t.id for t in s.targets if isinstance(t, ast.Name)]
     out = []
     for z in zeros:
-        for a in ast.walk(loop):
-            if (isinstance(a, ast.Assign) and any(isinstance(t, ast.Name) and t.id == z for t in a.targets)) or \
-                    (isinstance(a, ast.AugAssign) and isinstance(a.target, ast.Name) and a.target.id == z):
-                out.append(z)
-                break
+        advanced = any((isinstance(a, ast.Assign) and any(isinstance(t, ast.Name) and t.id == z for t in a.targets)) or
+                       (isinstance(a, ast.AugAssign) and isinstance(a.target, ast.Name) and a.target.id == z) for a in ast.walk(loop))
+        # an offset is *used* inside the loop (in a slice, a coordinate, an end computation); a tally that is only accumulated is not one
+        read = any(isinstance(x, ast.Name) and x.id == z and isinstance(x.ctx, ast.Load) for x in ast.walk(loop))
+        if advanced and read:
+            out.append(z)
     return out
 
 
